@@ -55,6 +55,16 @@ CHECKS = {
         "DESIGN.md section 8, C04",
         "The number of steps a loop needs is observed, not prescribed. Nested cyclic graphs with several entry points are excluded here (see C08).",
     ),
+    "C17": (
+        "exploration",
+        "runtime monitoring: offline trace rules over call log + step tap (S1 after production, S2 never co-scheduled, S3 once per production) and bounded-liveness oracle at quiescence vs sequential reference",
+        "Emit/wait_for programs (DAGs with several waiters, gate and interrupt producers incl. the pause/resume path, signal-"
+        "synchronised loops with extra waiters, seeded value names, a signal produced once) are executed on both runners; the "
+        "three safety rules are checked on every trace and liveness is decided when the runner itself reports quiescence: every "
+        "waiter whose producer ran has run, loops iterate as the sequential do-while.",
+        "DESIGN.md section 8, C17",
+        "Production is observed as the producer function returning (or the resume-path step of an answered interrupt); a name supplied by the caller counts as produced by the caller.",
+    ),
 }
 
 NOT_YET = {}
